@@ -50,6 +50,10 @@ def run(ctx):
     ctx.attempt("check_equality", check_equality, ctx, lib)
     ctx.attempt("check_number_equality", check_number_equality, ctx, lib)
     ctx.attempt("check_order_confined", check_order_confined, ctx, lib)
+    # the ordering operators are the PartialOrd methods of Variable, which delegate to Ord::cmp: its table (numbers by
+    # partial_cmp of the two values, so that -0 and 0 are neither < nor >) is part of what `<` means
+    from .c02 import check_internal_order
+    ctx.attempt("check_internal_order", check_internal_order, ctx, lib)
     n = check_accessors(ctx, lib, "accessor-table")
     ctx.floor("accessor-table", n, 100, "accessor decision paths walked")
 
